@@ -545,6 +545,7 @@ func (c *FCtx) loadField(state *State, ref *Term, owner types.Type, f *types.Var
 	for _, s := range slices {
 		if s.Base.Op == "app" && strings.HasPrefix(s.Base.Name, "sub$") {
 			facts = append(facts, IGt(s.Base, IntC(0)))
+			facts = append(facts, Implies(ILt(ref, Var("$alloc@pre", SInt)), ILt(s.Base, Var("$alloc@pre", SInt))))
 			continue
 		}
 		facts = append(facts, c.sliceWF(s)...)
